@@ -125,3 +125,14 @@ def cause_types(e):
         out.append(type(e).__name__)
         e = e.__cause__ if e.__cause__ is not None else e.__context__
     return out
+
+
+def cause_chain(e):
+    """Type names along __cause__ only (what 'raise ... from' attached; an implicit context does not count)."""
+    out = []
+    seen = set()
+    while e is not None and id(e) not in seen:
+        seen.add(id(e))
+        out.append(type(e).__name__)
+        e = e.__cause__
+    return out
